@@ -580,6 +580,49 @@ def ball_complete(p):
         raise Violation("in_separable_ball = %r for an operator at squared distance %.8f from I/d, inside the Gurvits-Barnum radius squared %.8f (d=%d, form %s)" % (got, dist2, rad2, p["n"], p.get("form", "matrix")))
 
 
+def ball_negative(p):
+    """an operator of negative trace (minus an operator inside the ball) is never accepted"""
+    import numpy as np
+
+    from toqito.state_props import in_separable_ball
+    from vt.contract import Violation
+
+    X, dist2, rad2 = _ball_input(dict(p, side="inside"))
+    got = in_separable_ball(-X)
+    if bool(got):
+        raise Violation("in_separable_ball = %r for minus an operator inside the ball (trace %.3g < 0; d=%d, form %s)" % (got, -float(np.sum(X) if X.ndim == 1 or X.shape[-1] == 1 else np.trace(X).real), p["n"], p.get("form", "matrix")))
+
+
+def ppt_nonpsd_operator(p):
+    """is_ppt judges the partial transpose, not the operator: a Hermitian operator that is NOT positive semidefinite but whose partial transpose is
+    (e.g. the swap operator, the partial transpose of a state) is PPT, and is_npt is its negation"""
+    import numpy as np
+
+    from toqito.state_props import is_npt, is_ppt
+    from vt.contract import Violation
+
+    dA, dB = p["dims"]
+    n = dA * dB
+    rng = np.random.default_rng([p.get("seed", 0), dA, dB, 61])
+    Y = _mixed(n, n, rng, bool(p.get("real"))) + 0.05 * np.eye(n) / n  # positive definite: lambda_min(PT(X)) >= 0.05/n, far above every tolerance
+    sys_ = int(p.get("sys", 2))
+    if sys_ == 2:
+        X = Y.reshape(dA, dB, dA, dB).transpose(0, 3, 2, 1).reshape(n, n)
+    else:
+        X = Y.reshape(dA, dB, dA, dB).transpose(2, 1, 0, 3).reshape(n, n)
+    X = (X + X.conj().T) / 2
+    lam = float(np.linalg.eigvalsh(X).min())
+    if lam > -1e-3:
+        from vt.contract import Undecided
+
+        raise Undecided("the constructed operator is positive semidefinite itself (lambda_min %.3g)" % lam)
+    got = is_ppt(X, sys_, [dA, dB])
+    if not bool(got):
+        raise Violation("is_ppt = %r on a %dx%d Hermitian operator with lambda_min = %.3g whose partial transpose over party %d is positive definite" % (got, dA, dB, lam, sys_))
+    if bool(is_npt(X, sys_, [dA, dB])):
+        raise Violation("is_npt = True on the same operator (negation of is_ppt = True)")
+
+
 def symext_accepts(p):
     """has_symmetric_extension accepts every separable state (levels 1..2, with and without the PPT constraint)"""
     from toqito.state_props import has_symmetric_extension
@@ -594,6 +637,8 @@ def symext_accepts(p):
 
 
 CLAUSES = {
+    "ball.negative_trace": ball_negative,
+    "ppt.nonpsd_operator": ppt_nonpsd_operator,
     "sep.accepts_separable": sep_accepts,
     "sep.rejects_npt": sep_rejects_npt,
     "sep.small_equals_ppt": sep_small_ppt,
@@ -619,6 +664,8 @@ _FN = {
     "npt.negation": "is_npt",
     "ball.sound": "in_separable_ball",
     "ball.complete": "in_separable_ball",
+    "ball.negative_trace": "in_separable_ball",
+    "ppt.nonpsd_operator": "is_ppt",
     "symext.accepts_separable": "has_symmetric_extension",
 }
 for _k, _f in CLAUSES.items():
@@ -727,6 +774,9 @@ def cases(tier, seed):
                         add("ppt.accepts_within_tol" if side == "inside" else "ppt.rejects_below_tol", q, ic, True)
                         if sys_ == 2:
                             add("npt.negation", q, "is_npt/tol=%s/dim=%s" % (tl, df), True)
+    for dA, dB in DIMS:
+        for sys_ in (1, 2):
+            add("ppt.nonpsd_operator", dict(dims=[dA, dB], sys=sys_, seed=seed, real=(dA + dB) % 2 == 1), "is_ppt/non-psd-operator-with-psd-partial-transpose", True)
     # ------------------------------------------------------------------ separable ball
     for n in (4, 6, 8, 9, 12, 16):
         for side in ("inside", "outside"):
@@ -736,6 +786,8 @@ def cases(tier, seed):
                         q = dict(n=n, side=side, form=form, scale=scale, seed=seed + i, real=(n % 2 == 0))
                         ic = "in_separable_ball/%s" % ("eigenvalue-%s" % form if form != "matrix" else "matrix")
                         add("ball.sound" if side == "outside" else "ball.complete", q, ic, True)
+                        if side == "inside" and i == 0:
+                            add("ball.negative_trace", q, ic + "/negative-trace", True)
     # ------------------------------------------------------------------ symmetric extensions of separable states
     for dA, dB in DIMS:
         d = [dA, dB]
